@@ -246,7 +246,7 @@ pub fn run(mut chk: Check) -> ! {
         }
         chk.explicit("alphabet", &inputs, case_alphabet);
     }
-    let n = chk.scale(8000, 400_000);
+    let n = chk.scale(300_000, 2_000_000);
     chk.campaign(CampaignCfg::new("pairs", n), case_pair);
     chk.finish()
 }
